@@ -275,36 +275,14 @@ Section Spec.
   (** does an element occur somewhere below? *)
   Definition has_elem_child (l : list node) : bool :=
     existsb (fun n => match n with Elem _ _ _ | Empty _ _ => true | _ => false end) l.
-  Definition textless (n : node) : bool :=
-    match filter (fun s => negb (blank s)) (flat_map texts_of (kids_of n)) with [] => true | _ => false end.
-
-  (** F16 — checks the reader skips (rule-breaking documents it accepts) *)
-  Definition f16_outline_child (n : node) : bool :=
-    match n with
-    | Empty name a => is_kind KContour n && match a with [] => false | _ => true end
-    | _ => false
-    end.
+  (** F16 — the check the reader still skips: a child element inside <note> (unknown content) *)
   Definition f16_child (n : node) : bool :=
     match n with
-    | Empty name a =>
-        (is_kind KUnicode n && negb (has_key (s2l "hex") a)) ||
-        (is_kind KOutline n && match a with [] => false | _ => true end)
-    | Elem name a kids =>
-        ((is_kind KOutline n || is_kind KLib n || is_kind KNote n)
-           && match a with [] => false | _ => true end) ||
-        (is_kind KNote n && has_elem_child kids) ||
-        (is_kind KOutline n && existsb f16_outline_child (tview kids))
-    | _ => false
-    end.
-  (** two or more notes, the first of them without text *)
-  Definition f16_notes (kids : list node) : bool :=
-    match filter (is_kind KNote) kids with
-    | n1 :: _ :: _ => textless n1
+    | Elem name a kids => is_kind KNote n && has_elem_child kids
     | _ => false
     end.
   Definition F16 (d : doc) : Prop :=
-    exists root, root_of d = Some root /\
-      (existsb f16_child (tview (kids_of root)) = true \/ f16_notes (tview (kids_of root)) = true).
+    exists root, root_of d = Some root /\ existsb f16_child (tview (kids_of root)) = true.
 
   (** F14 / F17 — legal surface forms the reader rejects *)
   Definition f14_leaf (n : node) : bool :=
@@ -418,7 +396,7 @@ Section Spec.
   Definition f16b (d : doc) : bool :=
     match root_of d with
     | None => false
-    | Some root => existsb f16_child (tview (kids_of root)) || f16_notes (tview (kids_of root))
+    | Some root => existsb f16_child (tview (kids_of root))
     end.
   Definition f14b (d : doc) : bool :=
     match root_of d with None => false | Some root => f14_node 3 root end.
